@@ -6,10 +6,7 @@ import HmsProofs.Lemmas.SimHStatic
 namespace HmsProofs.Sim
 open Hms.Core Hms.Core.Comp
 
-theorem depthGE_pos (e : Expr) : 1 ≤ Frag.depthGE e := by
-  cases e <;> try (simp [Frag.depthGE]; done)
-  case ifE sp ty c t el => cases el <;> simp [Frag.depthGE]
-  case matchE sp ty c arms dflt => cases dflt <;> simp [Frag.depthGE]
+theorem depthGE_pos (e : Expr) : 1 ≤ Frag.depthGE e := depthGE_pos0 e
 
 theorem definedLabels_litTests (sp : Span) (name : String) : ∀ (lits : List Expr), definedLabels (litTests sp name lits) = [] := by
   intro lits
@@ -223,6 +220,12 @@ theorem cgE_labels (mod : String) (ρ φ : String → Option String) : ∀ (n : 
           omega
       case call sp ty base args sw =>
         cases base <;> try exact LblInv.nil mod lm
+        case member msp mty b nm mop =>
+          cases mop <;> cases args <;> cases sw <;> try exact LblInv.nil mod lm
+          simp only [Frag.depthGE] at hd
+          have hdl : definedLabels [((Instr.member nm : SInstr), msp), (.copyPush (.int 0), sp), (.callVal, sp)] = [] := rfl
+          simp only [cgE, definedLabels_append, hdl, List.append_nil]
+          exact ihE b lm (by omega)
         rename_i isp ity name g f si
         simp only [Frag.depthGE] at hd
         simp only [cgE, definedLabels_append,
@@ -275,19 +278,6 @@ theorem cgE_labels (mod : String) (ρ φ : String → Option String) : ∀ (n : 
 theorem cgE_lbl (mod : String) (ρ φ : String → Option String) (e : Expr) (lm : LM) :
     LblInv mod lm (cgE mod ρ φ e lm).2 (definedLabels (cgE mod ρ φ e lm).1) :=
   (cgE_labels mod ρ φ (Frag.depthGE e)).1 e lm (Nat.le_refl _)
-
-theorem cgL_lbl (mod : String) (ρ φ : String → Option String) (e : Expr) (lm : LM) :
-    LblInv mod lm (cgL mod ρ φ e lm).2 (definedLabels (cgL mod ρ φ e lm).1) := by
-  cases e <;> try exact cgE_lbl mod ρ φ _ lm
-  rename_i csp cty base args sw
-  cases base <;> try exact cgE_lbl mod ρ φ _ lm
-  rename_i msp mty b nm mop
-  cases mop <;> try exact cgE_lbl mod ρ φ _ lm
-  cases args <;> try exact cgE_lbl mod ρ φ _ lm
-  cases sw <;> try exact cgE_lbl mod ρ φ _ lm
-  have hd : definedLabels [((Instr.member nm : SInstr), msp), (.copyPush (.int 0), csp), (.callVal, csp)] = [] := rfl
-  simp only [cgL, definedLabels_append, hd, List.append_nil]
-  exact cgE_lbl mod ρ φ b lm
 
 theorem cgArgs_lbl (mod : String) (ρ φ : String → Option String) (args : List (String × Expr)) (lm : LM) :
     LblInv mod lm (cgArgs mod ρ φ args lm).2 (definedLabels (cgArgs mod ρ φ args lm).1) :=
@@ -355,7 +345,7 @@ theorem cgS_labels (mod fn : String) (φ : String → Option String) : ∀ (n : 
         · simp only [cgS, definedLabels_append,
             definedLabels_instr _ _ _ (rfl : isLabel (Instr.setVar _ : SInstr) = false),
             definedLabels_nil, List.append_nil]
-          exact cgL_lbl mod _ φ e env.lm
+          exact cgE_lbl mod _ φ e env.lm
         · exact LblInv.nil mod env.lm
       case exprS sp e =>
         cases e
